@@ -409,7 +409,80 @@ func ruleStateReset(c *Ctx) []Obligation {
 				}
 			}
 		}
-		if cleared {
+		// … or the answer cached for the namespace of the module that is filed is removed (the answers for other
+		// namespaces do not depend on it): delete(ms.byNS, mod.Namespace.Name), under no condition other than the
+		// module having a namespace at all
+		removed := false
+		if !cleared {
+			modT := c.MustNamed("yang", "Module")
+			fNamespace := FieldVar(modT, "Namespace")
+			c.eachInstrDeep(add, func(in ssa.Instruction) {
+				call, isC := in.(*ssa.Call)
+				if !isC {
+					return
+				}
+				bi, isB := call.Call.Value.(*ssa.Builtin)
+				if !isB || bi.Name() != "delete" || len(call.Call.Args) != 2 {
+					return
+				}
+				if _, f, _ := loadedField(call.Call.Args[0]); f != fByNS {
+					return
+				}
+				own := false
+				operandClosure(call.Call.Args[1], func(x ssa.Value) {
+					if _, f, base := loadedField(x); f == fNamespace && base != nil {
+						operandClosure(base, func(y ssa.Value) {
+							for i := range add.Params {
+								if isParamN(add, y, i) {
+									own = true
+								}
+							}
+						})
+					}
+				})
+				if !own {
+					return
+				}
+				okAll := true
+				for _, l := range liftAll(in, add, 0) {
+					for _, g := range guardsAt(l.Block()) {
+						// a condition the accepting returns share, or the test that the module has a namespace
+						shared := true
+						for _, r := range successReturns(add) {
+							has := false
+							for _, g2 := range guardsAt(r.Block()) {
+								if g2.If == g.If && g2.Branch == g.Branch {
+									has = true
+								}
+							}
+							if !has {
+								shared = false
+							}
+						}
+						if shared {
+							continue
+						}
+						if x, isEq, isT := nilTest(g.Cond); isT && isEq != g.Branch {
+							if _, f, _ := loadedField(x); f == fNamespace {
+								continue
+							}
+						}
+						okAll = false
+					}
+					for _, r := range successReturns(add) {
+						if !reaches(l, r) {
+							okAll = false
+						}
+					}
+				}
+				if okAll {
+					removed = true
+				}
+			})
+		}
+		if removed {
+			obs = append(obs, ok(R, con, c.Pos(add.Pos()), "the answer cached for the filed module's own namespace is deleted on every accepting path of add"))
+		} else if cleared {
 			obs = append(obs, ok(R, con, c.Pos(add.Pos()), "ms.byNS = map…{} under nsMu on every accepting path of add"))
 		} else {
 			obs = append(obs, bad(R, con, c.Pos(add.Pos()), "a namespace looked up before a later load keeps its cached answer: the set no longer behaves like a fresh set loaded with the same texts"))
